@@ -6,7 +6,8 @@ From Coq Require Import ZArith NArith Reals List String Bool.
 From Flocq Require Import Core BinarySingleNaN.
 From SV Require Import Num.Mod360 Num.Mod360Proofs Num.AngleSites Num.AngleSitesProofs
                        Num.Dec6 Num.Dec6Proofs Num.Dec6CarveProofs Num.VecText Num.VecTextProofs Num.Mod360Id Num.VecTextFloat SM.FrozenOps SM.FrozenOpsProofs SM.FrozenCopy SM.FrozenCopyProofs
-                       SM.FrozenCopyValue SM.FrozenCopyValueProofs Num.AngleText Num.AngleTextProofs.
+                       SM.FrozenCopyValue SM.FrozenCopyValueProofs Num.AngleText Num.AngleTextProofs
+                       Num.AngleCtor Num.AngleCtorProofs SM.FrozenHash SM.FrozenHashProofs Num.SpecStrip Num.SpecStripProofs Num.C05Whole SM.FrozenEq SM.FrozenEqProofs.
 Import ListNotations.
 
 (** ------------------------------------------------------------------ (a) range *)
@@ -36,6 +37,28 @@ Theorem c05_single_site_refuted :
   exists es, finite_inputs es /\
     exists x, In x (AngleSites.run [("_to_angle"%string, Single360)] es []) /\ B2R x = 360%R.
 Proof. exact single_site_refuted. Qed.
+
+(** Constructors by ARGUMENT FORM (round 4).  For every dispatch table read off Angle.__init__ / FrozenAngle.__new__
+    that passes [ctor_table_ok]: whatever the first argument is - a number, an object of the class, an angle of the
+    twin class, a Vec, a FrozenVec, any other iterable - and whatever finite floats it supplies (in range when they
+    are the slots of an angle), each constructor has a path for that form and the object that path hands out has
+    three finite slots in [0, 360). *)
+Theorem c05_ctor_range : forall ctors rows, ctor_table_ok ctors rows = true ->
+  forall c, In c ctors -> forall f v, supplied_ok f v ->
+    (exists a, In (c, f, a) rows) /\
+    (forall a, In (c, f, a) rows -> exists s, ctor_eval a v = Some s /\ in_range3 s).
+Proof. exact ctor_range. Qed.
+
+(** A fast path that stores the components of a Vec argument as they are (seeded fault c05_6) fails the table check,
+    the offending row is named, and FrozenAngle(Vec(-90, 0, 0)) holds -90. *)
+Theorem c05_ctor_vec_copy_refuted :
+  let rows := [("FrozenAngle.__new__"%string, FVec, AStores Other Other Other)] in
+  ctor_table_ok ["FrozenAngle.__new__"%string] rows = false /\
+  bad_ctor_rows rows = [("FrozenAngle.__new__"%string, FVec)] /\
+  supplied_ok FVec (neg90, B754_zero false, B754_zero false) /\
+  exists s, ctor_eval (AStores Other Other Other) (neg90, B754_zero false, B754_zero false) = Some s /\
+            (B2R (fst (fst s)) = -90)%R.
+Proof. exact ctor_vec_copy_refuted. Qed.
 
 (** ------------------------------------------------------------------ (b) frozen values, copies *)
 
@@ -126,6 +149,69 @@ Theorem c05_copy_value_refuted :
   built nat (fun v => v) 0%nat swapped (fun s => if String.eqb s "_y" then 1%nat else if String.eqb s "_z" then 2%nat else 0%nat) "_y"%string = 2%nat.
 Proof. exact copy_value_refuted. Qed.
 
+(** Hash of frozen values (round 4).  [hash_kinds] = what hash(obj) is for each concrete class, read from the source.
+    For every table that passes [hash_table_ok] (mutable classes unhashable; a hashable class is frozen and its hash is
+    a function of ALL of its slots and of nothing else; FrozenVec and FrozenAngle hashable): *)
+
+(** equal values hash equal, wherever the two objects live (a copy, a pickle, thaw().freeze() of a dictionary key finds it) *)
+Theorem c05_hash_same_value : forall (V X H : Type) (get : V -> string -> X) (hf : list X -> H) (ident : nat -> H) rows,
+  hash_table_ok rows = true -> forall c a b i j, same_value V X get c a b ->
+  hash_of V X H get hf ident rows i (c, a) = hash_of V X H get hf ident rows j (c, b).
+Proof. exact hash_same_value. Qed.
+
+(** the hash ignores no component *)
+Theorem c05_hash_reads_every_slot : forall rows, hash_table_ok rows = true ->
+  forall c l, FrozenHash.lookup c rows = Some (HSlots l) -> forall s, In s (family_slots c) -> In s l.
+Proof. exact hash_reads_every_slot. Qed.
+
+(** only frozen classes are hashable *)
+Theorem c05_hashable_is_frozen : forall (V X H : Type) (get : V -> string -> X) (hf : list X -> H) (ident : nat -> H) rows,
+  hash_table_ok rows = true -> forall c i v h, hash_of V X H get hf ident rows i (c, v) = Some h -> frozen_class c = true.
+Proof. exact hashable_is_frozen. Qed.
+
+(** composed with the frame theorem: the hash of a frozen object is the same after EVERY history of public calls *)
+Theorem c05_frozen_hash_stable : forall (V X H : Type) (get : V -> string -> X) (hf : list X -> H) (ident : nat -> H) table carve rows,
+  table_ok table carve = true ->
+  forall h st i r, good_history V table carve h st ->
+  nth_error st i = Some r -> frozen_class (fst r) = true ->
+  exists r', nth_error (FrozenOps.run V table h st) i = Some r' /\
+             hash_of V X H get hf ident rows i r' = hash_of V X H get hf ident rows i r.
+Proof. exact frozen_hash_stable. Qed.
+
+(** == (round 4).  [eq_shapes] = the per-slot comparisons of __eq__ on two objects of one family, read from the source.
+    For every table that passes [eq_table_ok] (every slot of the family compared, each comparison accepting a difference of
+    zero): two objects whose slots hold the same finite values (rationals) compare equal - with the copy theorems this
+    is "a copy == its source" *)
+Theorem c05_eq_same_value : forall rows, eq_table_ok rows = true ->
+  forall fam l, In (fam, l) rows -> forall a b : string -> QArith_base.Q,
+  (forall s, In s (family_slots fam) -> QArith_base.Qeq (a s) (b s)) -> eq_eval l a b = true.
+Proof. exact eq_same_value. Qed.
+
+Theorem c05_eq_reads_every_slot : forall rows, eq_table_ok rows = true ->
+  forall fam l, In (fam, l) rows -> forall s, In s (family_slots fam) -> In s (map fst l).
+Proof. exact eq_reads_every_slot. Qed.
+
+(** a strict test against a tolerance of zero rejects even identical values (own mutation OM10) *)
+Theorem c05_eq_strict_zero_refuted :
+  let rows := [("AngleBase"%string, [("_pitch"%string, CTol true (QArith_base.Qmake 0 1)); ("_yaw"%string, CTol false (QArith_base.Qmake 1 1000000)); ("_roll"%string, CTol false (QArith_base.Qmake 1 1000000))])] in
+  eq_table_ok rows = false /\ bad_eq_rows rows = ["AngleBase"%string] /\
+  eq_eval (snd (hd (""%string, []) rows)) (fun _ => QArith_base.Qmake 90 1) (fun _ => QArith_base.Qmake 90 1) = false.
+Proof. exact eq_strict_zero_refuted. Qed.
+
+(** in-place operators: for every census [inplace_rows] that passes, no class of a frozen object (nor a base class
+    of one) defines an __iOP__ method: `frozen op= y` can only rebind the name to the result of the binary operator *)
+Theorem c05_inplace_never_on_frozen : forall rows, inplace_ok rows = true ->
+  forall c m, In (c, m) rows -> frozen_reachable c = false /\ frozen_class c = false.
+Proof. exact inplace_never_on_frozen. Qed.
+
+(** an identity hash on a frozen class is rejected: equal values in two registers hash differently *)
+Theorem c05_hash_identity_refuted :
+  let rows := [("FrozenVec"%string, HIdentity)] in
+  hash_table_ok rows = false /\ bad_hash_rows rows = ["FrozenVec"%string] /\
+  hash_of nat nat nat (fun v _ => v) (fun l => 0%nat) (fun i => i) rows 0 ("FrozenVec"%string, 7%nat)
+  <> hash_of nat nat nat (fun v _ => v) (fun l => 0%nat) (fun i => i) rows 1 ("FrozenVec"%string, 7%nat).
+Proof. exact hash_identity_refuted. Qed.
+
 (** ------------------------------------------------------------------ (c) text *)
 
 (** Shape of the text for EVERY dyadic x and every pipeline read from the source that strips zeros at six
@@ -190,6 +276,38 @@ Theorem c05_format6_shape_refuted :
   format6 cfg_pinned {| dneg := true; dm := 1; de := (-30)%Z |} = [45; 48]%N /\
   shape_ok (fmt_parts cfg_pinned {| dneg := true; dm := 1; de := (-30)%Z |}) = false.
 Proof. exact format6_shape_refuted. Qed.
+
+(** ------------------------------------------------------------------ (c) text: __format__ with a user spec (round 4) *)
+
+(** What Vec.__format__ / Angle.__format__ do to the text Python's format(component, spec) produced, for every
+    configuration read from the source that passes [spec_cfg_ok]: a fixed-point text  pre ++ "." ++ frac  ([pre] = sign,
+    padding, integer ss_digits, separators: anything without '.', 'e', 'E'; [frac] ss_digits) loses the trailing zeros of the
+    fraction, and the dot when nothing is left - and nothing else. *)
+Theorem c05_spec_post_fixed : forall k pre frac,
+  spec_cfg_ok k = true -> spec_neg_zero_fix k = false ->
+  ss_has 46 pre = false -> ss_has 101 pre = false -> ss_has 69 pre = false -> ss_digits frac = true ->
+  exists (frac' : list N) n, frac = (frac' ++ repeat 48%N n)%list /\ (forall p x, frac' = (p ++ [x])%list -> x <> 48%N) /\
+    spec_post k (pre ++ 46%N :: frac)%list = (pre ++ (match frac' with [] => [] | _ => 46%N :: frac' end))%list.
+Proof. exact spec_post_fixed. Qed.
+
+(** a text with an exponent is handed on unchanged (its trailing zeros belong to the exponent) *)
+Theorem c05_spec_post_exponent : forall k s,
+  guard_no_exp k = true -> dot_outside k = false \/ (forall p, s <> (p ++ [46%N])%list) ->
+  ss_has 101 s = true \/ ss_has 69 s = true -> spec_post k s = s.
+Proof. exact spec_post_exponent. Qed.
+
+(** a text without a dot is handed on unchanged *)
+Theorem c05_spec_post_no_dot : forall k s,
+  guard_dot k = true -> spec_neg_zero_fix k = false -> ss_has 46 s = false -> spec_post k s = s.
+Proof. exact spec_post_no_dot. Qed.
+
+(** the pinned tree before repair 48ba917 (no exponent ss_guard): "1.5e+20" -> "1.5e+2", "0.0e+00" -> "0.0e+" *)
+Theorem c05_spec_post_unguarded_refuted :
+  spec_cfg_ok cfg_unguarded = false /\
+  spec_post cfg_unguarded [49; 46; 53; 101; 43; 50; 48]%N = [49; 46; 53; 101; 43; 50]%N /\
+  spec_post cfg_unguarded [48; 46; 48; 101; 43; 48; 48]%N = [48; 46; 48; 101; 43]%N /\
+  spec_post cfg_guarded [49; 46; 53; 101; 43; 50; 48]%N = [49; 46; 53; 101; 43; 50; 48]%N.
+Proof. exact spec_post_unguarded_refuted. Qed.
 
 (** ------------------------------------------------------------------ (c) text: reading back *)
 
@@ -329,3 +447,21 @@ Theorem c05_vec_text_roundtrip : forall pc c (x y z : b64) ws1 ob wa s1 s2 wb cb
     forall d v, In (d, v) [(d1, x); (d2, y); (d3, z)] ->
       (Rabs (py_float d - B2R v) <= 5 / 10000000 + / 2 * ulp radix2 (FLT_exp (-1074) 53) (dec_R d))%R.
 Proof. exact vec_text_roundtrip. Qed.
+
+(** ------------------------------------------------------------------ THE WHOLE PROPERTY (round 4) *)
+
+(** One statement over everything the translator reads from math.py ([c05_source]: store sites, creations, constructor
+    dispatch, mutation census, result kinds, copy shapes, hash kinds, in-place methods, the format_float / parse_vec_str /
+    __format__ pipelines).  If the boolean checks [c05_source_ok] hold - the check evaluates them on today's generated
+    objects on every run (obligation whole_property_hypotheses_hold, and each conjunct under its own name) - then:
+    angle slots stay in [0, 360) along every history of stores and out of every constructor form; frozen objects and
+    non-receivers never change and the hash of a frozen object is stable and equal for equal values; a copy has the
+    promised class and the value of its source; the text of a component is a plain decimal ("-0" exactly on the
+    carved-out class), str -> from_str returns to within 5e-7 + ulp/2 (on the circle for angles, in range again), and
+    format(obj, spec) only drops trailing zeros of a fixed-point fraction.  Remaining assumptions are visible in the
+    clauses: finite operands ([finite_inputs], [supplied_ok]), float() correctly rounded ([py_float]), public calls only
+    ([good_history]). *)
+Theorem c05_property : forall s, c05_source_ok s = true ->
+  whole_range s /\ whole_ctor s /\ whole_frozen s /\ whole_independent s /\ whole_hash s /\ whole_copy_value s /\
+  whole_text_shape s /\ whole_angle_roundtrip s /\ whole_vec_roundtrip s /\ whole_format_spec s.
+Proof. exact c05_whole. Qed.
